@@ -1195,6 +1195,79 @@ def m_opt_take(m, c, a):
     cell = a[0].cell; v = cell.v; cell.v = none(); return v
 
 
+@model('Option::as_deref', 'Option::as_deref_mut')
+def m_opt_as_deref(m, c, a):
+    # &Option<Rc<T>> / &Option<Box<T>> / &Option<String> / &Option<Vec<T>> -> Option<&T> / Option<&str> / Option<&[T]>
+    o = deref(a[0])
+    if o.vidx != 1: return none()
+    v = o.fields[0].v
+    if isinstance(v, RcV): return some(Ptr(v.cell))
+    if isinstance(v, RStr): return some(StrRef(v))
+    if isinstance(v, VecV): return some(SliceRef(v.items, 0, len(v.items)))
+    if isinstance(v, Ptr): return some(v)
+    raise Unsupported('Option::as_deref on %r' % (type(v).__name__,))
+
+
+@model('Option::filter')
+def m_opt_filter(m, c, a):
+    o = a[0]
+    if o.vidx != 1: return o
+    return o if m.branch(call_closure(m, a[1], [Ptr(o.fields[0])])) else none()
+
+
+@model('bool::then')
+def m_bool_then(m, c, a):
+    return some(call_closure(m, a[1], [])) if m.branch(a[0]) else none()
+
+
+@model('bool::then_some')
+def m_bool_then_some(m, c, a):
+    return some(a[1]) if m.branch(a[0]) else none()
+
+
+@model('mem::take')
+def m_mem_take(m, callee, a):
+    cell = a[0].cell; v = cell.v
+    if isinstance(v, VecV): cell.v = VecV([])
+    elif isinstance(v, RStr): cell.v = RStr([])
+    elif isinstance(v, Agg) and v.ty == 'Option': cell.v = none()
+    elif isinstance(v, bool): cell.v = False
+    elif isinstance(v, int): cell.v = 0
+    elif isinstance(v, MapV): cell.v = MapV()
+    else: raise Unsupported('mem::take of %r' % (type(v).__name__,))
+    return v
+
+
+@model('[]::split_first', '[]::split_last')
+def m_split_first(m, callee, a):
+    v = a[0] if isinstance(a[0], SliceRef) else deref(a[0])
+    sl = v if isinstance(v, SliceRef) else SliceRef(seq_cells(v), 0, len(seq_cells(v)))
+    if sl.hi - sl.lo == 0: return none()
+    if canon_last(callee) == 'split_first':
+        return some(Agg(None, None, None, [Ptr(sl.items[sl.lo]), SliceRef(sl.items, sl.lo + 1, sl.hi)]))
+    return some(Agg(None, None, None, [Ptr(sl.items[sl.hi - 1]), SliceRef(sl.items, sl.lo, sl.hi - 1)]))
+
+
+@model('<[] as TryFrom>::try_from')
+def m_arr_try_from(m, callee, a):
+    # <[T; N] as TryFrom<Vec<T>>>::try_from: Ok(array) when the length is N, else Err(the vector)
+    mm = re.search(r'<\[.*; (\d+)\] as TryFrom', callee)
+    v = a[0]
+    if mm is None or not isinstance(v, VecV): raise Unsupported('try_from ' + callee)
+    if len(v.items) == int(mm.group(1)): return ok(ArrV([c.v for c in v.items]))
+    return err(v)
+
+
+@model('str::split_once')
+def m_split_once(m, c, a):
+    s, pat = as_rstr(a[0]).chars, _pattern(m, a[1])
+    if not pat: raise Unsupported('split_once on empty pattern')
+    for i in range(0, len(s) - len(pat) + 1):
+        if str_eq(m, RStr(s[i:i + len(pat)]), RStr(pat)):
+            return some(Agg(None, None, None, [StrRef(RStr(s[:i])), StrRef(RStr(s[i + len(pat):]))]))
+    return none()
+
+
 @model('Option::as_ref', 'Option::as_mut')
 def m_opt_as_ref(m, c, a):
     o = deref(a[0])
@@ -1203,7 +1276,7 @@ def m_opt_as_ref(m, c, a):
 
 @model('Option::map', 'Option::and_then', 'Option::unwrap_or_else', 'Option::map_or', 'Option::is_some_and', 'Result::map', 'Result::map_err', 'Result::unwrap_or_else')
 def m_opt_combinators(m, callee, a):
-    key = callee.split('::<')[0].split('::')[-1]
+    key = canon_last(callee)
     o = a[0]
     is_res = o.ty == 'Result'
     good = (o.vidx == 0) if is_res else (o.vidx == 1)
@@ -1708,6 +1781,22 @@ def m_slice_join(m, callee, a):
         if i: out.extend(sep)
         out.extend(as_rstr(x.v).chars)
     return RStr(out)
+
+
+@model('<HashMap as Extend>::extend')
+def m_map_extend(m, c, a):
+    mp = deref(a[0]); src = a[1]
+    if isinstance(src, MapV): items = [(k, cell.v) for k, cell in src.e]
+    elif isinstance(src, IterV):
+        items = []
+        while True:
+            nx = m_iter_next(m, '', [Ptr(Cell(src))])
+            if nx.variant == 'None': break
+            t = nx.fields[0].v
+            items.append((t.fields[0].v, t.fields[1].v))
+    else: raise Unsupported('HashMap::extend from %r' % (type(src).__name__,))
+    for k, v in items: m_map_insert(m, '', [Ptr(Cell(mp)), k, v])
+    return UNIT
 
 
 @model('HashMap::clear')
